@@ -398,3 +398,53 @@ func ParseGGUF(b []byte) (*GParsed, error) {
 	}
 	return p, nil
 }
+
+// WrapPair rewrites, in the built file b, the single dimension of two one-dimensional F32 tensors (index i, and
+// the last tensor) so that each byte size on its own fits an int64 while the position reached after skipping all
+// tensor data, computed as the decoder does (data start, each tensor preceded by alignment padding), comes to
+// 2^64 + target: a decoder that adds the sizes up instead of seeking step by step ends at `target`. It returns
+// a description, or "" when the file does not allow it (GGUF v1, tensors of another shape, target too large).
+func (f *GFile) WrapPair(b []byte, fields []Field, dataStart int, i int, target uint64) string {
+	align := f.Alignment
+	if align == 0 {
+		align = 32
+	}
+	j := len(f.Tensors) - 1
+	if f.Version == 1 || i < 0 || i >= j || target%4 != 0 {
+		return ""
+	}
+	for _, k := range []int{i, j} {
+		if len(f.Tensors[k].Dims) != 1 || f.Tensors[k].Kind != 0 {
+			return ""
+		}
+	}
+	up := func(x uint64) uint64 { return x + (align-x%align)%align }
+	var rest uint64 // what the other tensors and the padding in front of the last one contribute
+	for k := 0; k < j; k++ {
+		if k != i {
+			rest += up(uint64(len(f.Tensors[k].Data)))
+		}
+	}
+	si := uint64(1)<<63 - align
+	sj := target - uint64(dataStart) - rest - si // mod 2^64
+	if sj >= 1<<63 || sj%4 != 0 {
+		return ""
+	}
+	put := func(name string, v uint64) bool {
+		for _, fl := range fields {
+			if fl.What == "dim" && fl.Key == name && fl.Size == 8 && fl.Pos+8 <= len(b) {
+				if f.BigEndian {
+					binary.BigEndian.PutUint64(b[fl.Pos:], v)
+				} else {
+					binary.LittleEndian.PutUint64(b[fl.Pos:], v)
+				}
+				return true
+			}
+		}
+		return false
+	}
+	if !put(f.Tensors[i].Name, si/4) || !put(f.Tensors[j].Name, sj/4) {
+		return ""
+	}
+	return fmt.Sprintf("dim[%s]=%d;dim[%s]=%d (sizes %d + %d: the end of the tensor data wraps around 2^64 to %d)", f.Tensors[i].Name, si/4, f.Tensors[j].Name, sj/4, si, sj, target)
+}
